@@ -19,6 +19,7 @@ import SMGo.Proofs.SM4Key
 import SMGo.Proofs.SM4Inverse
 import SMGo.Proofs.ISAValSpec
 import SMGo.Proofs.ISAValExpandSpec
+import SMGo.Proofs.ISAValRoundL
 import SMGo.Proofs.ISAValTests
 namespace SMGo.Props.C05
 open SMGo
@@ -317,10 +318,37 @@ theorem C05_asm_amd64 (g v k g' v' k' key enc0 dec0 dst0 src : List Nat)
       (by intro x hx; simp only [List.mem_map] at hx; obtain ⟨w, _, rfl⟩ := hx; exact w.isLt) hsrc hsb hdst]
     simp [Spec.SM4.decrypt, List.map_map, Function.comp_def]
 
-/- Not proved in general (only tested above and, on every check, against the CPU and the specification by the
-   harness): the listings of cryptoBlockAsmX2/X4/X8/X16 (on amd64 they are reached only from tests: Encrypt/Decrypt
-   use cryptoBlockAsm, GCM uses its own fused routine).  What a general proof would need on top of the lemmas
-   that exist is named at the end of SMGo/Proofs/ISAValSpec.lean. -/
+open Model.ISAVal Proofs.ISAVal in
+/-- **the 32 `subRound` blocks at any vector length (X, Y or Z registers) compute 32 SM4 rounds on every dword
+    lane**: from a state whose state registers carry, in dword lane `j`, the window `X j`, running the 544
+    instructions `roundsCodeL vl 32` leaves in lane `j` the window after 32 rounds with the round keys read from
+    memory (`iterN`; `stepN` is `Spec.SM4.roundStep` on numbers, `toW_stepN`).  This is the part of the wide kernels
+    cryptoBlockAsmX2/X4/X8/X16 that is proved in general … -/
+theorem asm_rounds_all_lanes (vl : Nat) (hvl : validVl vl = true) (mem : List Region) (syms frame : List (String × Nat))
+    (rkBase dstp shuf : Nat) (kb : Nat → List Nat) (hbase : rkBase + 4 * 32 < 2 ^ 64)
+    (hrk : ∀ i, i < 32 → readMem mem (rkBase + 4 * i) 4 = .ok (kb i))
+    (hkb : ∀ i, i < 32 → unlanes 8 (kb i) < 2 ^ 32)
+    (X : Nat → Nat × Nat × Nat × Nat) (s : State) (h : ReadyL vl mem syms frame rkBase dstp shuf 0 X s) :
+    ∃ s', execList (roundsCodeL vl 32) s = .ok s' ∧
+      ReadyL vl mem syms frame rkBase dstp shuf 32 (fun j => iterN (fun i => unlanes 8 (kb i)) (X j) 32) s' :=
+  readyL_rounds vl hvl mem syms frame rkBase dstp shuf kb hbase hrk hkb X s h 32 (Nat.le_refl _)
+
+open Proofs.ISAVal in
+/-- … and these 544 instructions are, instruction for instruction, what the regenerated listings of the four wide
+    kernels contain between their prologue and their epilogue (checked by evaluation) -/
+theorem asm_wide_kernels_rounds :
+    decodedSlice Gen.ListAmd64Asm.cryptoBlockAsmX2 17 544 = some (roundsCodeL 16 32)
+    ∧ decodedSlice Gen.ListAmd64Asm.cryptoBlockAsmX4 25 544 = some (roundsCodeL 16 32)
+    ∧ decodedSlice Gen.ListAmd64Asm.cryptoBlockAsmX8 25 544 = some (roundsCodeL 32 32)
+    ∧ decodedSlice Gen.ListAmd64Asm.cryptoBlockAsmX16 25 544 = some (roundsCodeL 64 32) :=
+  wide_kernels_rounds
+
+/- NOT proved in general for cryptoBlockAsmX2/X4/X8/X16 (only tested above and, on every check, compared with the CPU
+   and the specification by the harness; on amd64 these four are reached only from tests: Encrypt/Decrypt use
+   cryptoBlockAsm, GCM uses its own fused routine): their prologue (vector loads, `rev32` on every 128-bit lane, the
+   4×4 dword transpose that puts word k of block b into lane b of state register k) and their epilogue (the
+   transpose back, `rev32`, four stores).  The lemmas that exist for one 128-bit lane (`x_rev32`, `x_unpck*`) and what
+   a general proof still needs are listed at the end of SMGo/Proofs/ISAValSpec.lean. -/
 
 end SMGo.Props.C05
 
@@ -352,3 +380,5 @@ end SMGo.Props.C05
 #print axioms SMGo.Props.C05.asm_cryptoBlockAsm_inplace_eq_spec
 #print axioms SMGo.Props.C05.asm_expandKeyAsm_eq_spec
 #print axioms SMGo.Props.C05.C05_asm_amd64
+#print axioms SMGo.Props.C05.asm_rounds_all_lanes
+#print axioms SMGo.Props.C05.asm_wide_kernels_rounds
